@@ -958,6 +958,12 @@ pub static ASCII_PROPERTIES: Lazy<BTreeMap<char, Property>> = Lazy::new(|| {
                             right.line_overlap(k, l) && top.line_overlap(r, w),
                             vec![arc(h, o, unit2), line(c, h)],
                         ),
+                        //  ,
+                        //  '-
+                        (
+                            top.is(',') && right.line_overlap(k, l),
+                            vec![arc(h, o, unit2), line(c, h)],
+                        ),
                         //  |
                         //   '-
                         (
